@@ -212,7 +212,7 @@ func (c *vCtx) cancel() {
 		close(c.done)
 	}
 }
-func (c *vCtx) Done() <-chan struct{}             { return c.done }
+func (c *vCtx) Done() <-chan struct{} { return c.done }
 func (c *vCtx) Err() error {
 	vhSyncPoint(1)
 	return c.err
